@@ -1073,6 +1073,23 @@ def C11(tier, seed):
     try:
         build_s = C.build_harness()
         states = transitions = 0
+        # the property on the model: FlwCrash.tla = FlwF.tla with a kill immediately before any numbered effect of any call,
+        # then a new logger on the directory; TLC enumerates every kill point x history within the bounds
+        kcfg = "MCFlwCrash_q.cfg" if tier == "quick" else "MCFlwCrash_t.cfg"
+        rk = C.run_tlc("MCFlwCrash.tla", os.path.join(C.SPEC, kcfg), os.path.join(wd, "mc-crash"), workers=6, timeout=3000)
+        if rk["violated"] or rk["deadlock"]:
+            raise C.ToolError(f"FlwCrash/{kcfg} violates {rk['violated']}")
+        mc_stats = [{"cfg": kcfg, "states": rk["states"], "transitions": rk["transitions"], "wall_s": rk["wall_s"]}]
+        states += rk["states"]
+        transitions += rk["transitions"]
+        rkm = C.run_tlc("MCFlwCrash.tla", os.path.join(C.SPEC, "MCFlwCrash_mut.cfg"), os.path.join(wd, "mc-crash-mut"), workers=1,
+                        timeout=300)
+        if "C11_AckedPresentAnyMode" not in (rkm["violated"] or []):
+            raise C.ToolError("FlwCrash: with a buffered writer a kill must lose acknowledged records (sanity of the kill model)")
+        C.log(f"[C11] TLC {kcfg}: {rk['states']} distinct states; a kill before every numbered file-system effect of every call x every "
+              f"history of the bounded model (direct mode, four namings, with/without cleanup and compression, symlink), then a "
+              f"restart: AckedPresent, NoDestruction, KeptWhatLimitPermits, TwinsOnlyUnfinished hold; with a buffered writer "
+              f"AckedPresent fails (sanity of the kill model)")
         rng = random.Random(seed)
         base = []
         gens = [("MCFlw_C07gen.cfg", 50 if tier == "quick" else 1200), ("MCFlw_C01gen.cfg", 25 if tier == "quick" else 600),
@@ -1227,9 +1244,10 @@ def C11(tier, seed):
                "crash_points_total": sum(hits.values()), "killed_before_hook": crash_by_hook, "effects_by_hook": ptnames,
                "events_judged": events, "states": states, "transitions": transitions,
                "traces_validated_against_impl": len(results), "monitor": "MonC11.tla", "monitor_counters": counts,
+               "model_checking_runs": mc_stats,
                "predicate_failures": len(bads), "known_findings_hit": [{"id": f["id"], "count": c} for f, c in known],
                "exhaustive": len(jobs) < limit, "harness_build_s": round(build_s, 1)}
-        C.write_evidence(pid, tier, seed, "fault_enumeration", cov,
+        C.write_evidence(pid, tier, seed, "model_checking", cov,
                          A_COMMON + ["process kill (abort), not power loss: data handed to the kernel survives",
                                      "kill points are the hook points before each file-system effect (plus none inside an "
                                      "effect); virtual birth times do not survive the kill (size criterion scenarios)"],
